@@ -171,6 +171,9 @@ func (e *Engine) blockedOf(cs []*callRun) (map[int][][]string, int) {
 }
 
 func (e *Engine) noteQuiesce(cs []*callRun) {
+	if gates.anyParked() {
+		return
+	}
 	b, n := e.blockedOf(cs)
 	if n > 0 {
 		e.tr.Emit(0, "Quiesce", "blockedByCall", b)
@@ -194,6 +197,9 @@ func (e *Engine) releaseCtxWaiters(sc *Script, cs []*callRun) {
 // RunSched executes a scheduled script on one call.
 func (e *Engine) RunSched(sc *Script) []Ev {
 	e.self = myGoid()
+	if len(sc.Gates) > 0 {
+		gates.enable(sc.Gates)
+	}
 	c := e.setupCall(sc, 1, sc.Seed)
 	cs := []*callRun{c}
 	go c.clientLoop(c.cs)
@@ -212,6 +218,10 @@ func (e *Engine) RunSched(sc *Script) []Ev {
 				who = "cancel"
 			}
 			c.doCancel(who)
+		case "srv", "cli":
+			if !gates.releaseOne(who) {
+				return
+			}
 		default:
 			var a *actor
 			switch who {
@@ -249,6 +259,12 @@ func (e *Engine) RunSched(sc *Script) []Ev {
 // winddown ends the experiment: the context is cancelled (if it was not), the
 // handler is told to return, every actor must come home.
 func (e *Engine) winddown(sc *Script, cs []*callRun) {
+	if len(sc.Gates) > 0 {
+		// open the gates: from here on the code runs freely
+		gates.disable()
+		e.rest(sc)
+		e.noteQuiesce(cs)
+	}
 	for _, c := range cs {
 		e.tr.Emit(c.id, "Winddown")
 		c.doCancel("cancel")
